@@ -386,6 +386,7 @@ class Gen:
             if k == "placeholder": return "_"
             if k == "lit": return self.lit(t)
             x = self.var(); env_out.append((x, t))
+            self.bound_labels.add(x)      # a type-ascribed binder records a narrowing: never re-bound (F53c02)
             return "(%s)%s" % (ty_src(t), x)
         if t[0] == "fn":
             if r.random() < 0.7:
@@ -593,7 +594,7 @@ class Gen:
                 # rebinding an existing name (closures defined earlier keep the old value)
                 text = ",\n".join(steps)
                 vis = [(x, t) for x, t in self.lookup_latest(env)
-                       if t in (INT, BIN, STR) and not self.matched_on(x, text)]
+                       if t in (INT, BIN, STR) and x not in self.bound_labels and not self.matched_on(x, text)]
                 if vis:
                     x, _ = r.choice(vis)
                     t = self.rand_type()
